@@ -14,7 +14,7 @@ from __future__ import annotations
 import json
 import pickle
 
-from ..engine import Analysis
+from ..engine import Analysis, describe_path
 from ..frontend import AnalysisError
 from ..report import RuleResult
 from . import common, persist
@@ -25,6 +25,40 @@ CONTENT_ERRORS = {
     "pickle": (pickle.UnpicklingError, EOFError, AttributeError, ImportError, IndexError, ValueError),
     "json": (json.JSONDecodeError, UnicodeDecodeError, ValueError),
 }
+
+
+def start_worker(analysis: Analysis, flavour: str) -> dict:
+    """start_persistence of one flavour: with persistence on, every path goes through safe_load_sensors."""
+    from ..values import Sym
+
+    SAFE = "persistence:Persistence.safe_load_sensors"
+    ctx = analysis.context(analysis.versions[-1], "serial", flavour)
+    it = analysis.new_interp(ctx)
+    it.inline_skip = {SAFE}
+    st, gw = analysis.gateway_state(it)
+    tasks = Sym(("attr", gw.key(), "tasks"), ("cls", ctx.tasks))
+    pkey = ("attr", tasks.key(), "persistence")
+    m = analysis.p.find_method(ctx.tasks, "start_persistence")
+    if m is None:
+        raise AnalysisError(f"anchor vanished: {ctx.tasks}.start_persistence")
+    outs = analysis.run_root(it, m.qual, [], tasks, st)
+    if m.is_async:
+        res = []
+        for kind, s, v in outs:
+            if kind == "val" and hasattr(v, "fn"):
+                res.extend(it.call_func(s, v.fn, list(v.args), v.kwargs, m.node))
+            else:
+                res.append((kind, s, v))
+        outs = res
+    rows = []
+    for out in outs:
+        kind, s, v = out
+        if kind == "raise":
+            continue
+        on = ("truthy", pkey) in s.facts
+        loads = [e for e in s.events if (e.kind == "opaque" and e.name == SAFE) or (e.kind == "await" and "safe_load_sensors" in repr(e.recv.key() if hasattr(e.recv, "key") else e.recv)) or (e.kind in ("call", "executor") and "safe_load_sensors" in repr([a.key() if hasattr(a, "key") else a for a in e.args]))]
+        rows.append({"on": on, "loads": len(loads), "witness": describe_path(out, 14)})
+    return {"qual": m.qual, "rows": rows}
 
 
 def run(analysis: Analysis, tier: str) -> RuleResult:
@@ -76,6 +110,14 @@ def run(analysis: Analysis, tier: str) -> RuleResult:
         res.reindex()
         if not caught_classes:
             res.add("C13-R1", f"safe_load_sensors[{ext}] / damaged content is caught", False, "mysensors/persistence.py", "no handler catches a decoder error")
+    # R4: the safe loader is what start-up uses, whatever files exist (main missing + intact backup included)
+    for summ in common.pmap(analysis, start_worker, ["sync", "async"]):
+        on = [r for r in summ["rows"] if r["on"]]
+        if not on:
+            res.add("C13-R4", f"{summ['qual']} / loads the saved network when persistence is on", False, "mysensors/task.py", "no path with persistence on")
+        for r in on:
+            ok = r["loads"] >= 1
+            res.add("C13-R4", f"{summ['qual']} / every start with persistence on goes through safe_load_sensors (which decides about main and backup)", ok, "mysensors/task.py", "safe_load_sensors() on every path" if ok else "a path starts persistence without calling safe_load_sensors (e.g. only when the main file exists): a missing main file with an intact backup starts empty", r["witness"] if not ok else None)
     res.units = {"formats": list(persist.EXTS), "source_digest": analysis.p.digest()}
     res.not_decided = ["exceptions outside the documented raise sets (crafted pickles)", "valid JSON of the wrong shape"]
     res.assumptions = ["raise sets of pickle.load / json.load as documented (sa/extmodel.py)", "OSError is an environment fault, not a content error"]
